@@ -294,6 +294,7 @@ def run_thread_check(prop, tier, parts, budget_s, design_ref, assumptions, real_
             desc["kind"] = san.get("kind", "")
             desc["first_repo_function"] = san.get("first_repo_function") or ""
             desc["alloc_repo_function"] = san.get("alloc_repo_function") or ""
+            desc["region_bytes"] = san.get("region_bytes", "")
         k = match_known(prop, desc)
         if k:
             print("KNOWN-FINDING: property=%s %s" % (prop, k.get("what", cls)))
